@@ -98,6 +98,12 @@ def build(ctx):
             rnd.append({"seq": ["+" if c == "+" else "a" for c in s], "sst": s})
             s = "+".join(["(" + "." * 2] * m) + "+" + "+".join([")"] * m)
             rnd.append({"seq": gs.seq_for(rng, s, names=("a",)), "sst": s})
+    # distinct strands whose names concatenate to the same text, under structures that repeat per strand
+    for sq_, st_ in ((["ab", "c", "+", "a", "bc"], "..+.."), (["ab", "c", "+", "a", "bc"], "((+))"), (["a", "bc", "+", "ab", "c"], "(.+.)"),
+                     (["x", "yz", "+", "xy", "z", "+", "x", "yz"], "..+..+.."), (["x", "yz", "+", "xy", "z", "+", "x", "yz"], "(.+..+.)"),
+                     (["ab", "c", "+", "a", "bc", "+", "ab", "c", "+", "a", "bc"], "..+..+..+.."),
+                     (["d1", "0", "+", "d", "10"], "..+.."), (["a", "b", "c", "+", "ab", "c", "+", "a", "bc"], "...+..+..")):
+        rnd.append({"seq": list(sq_), "sst": st_})
     batches["random"] = [(rq, c) for c in rnd for rq in case_requests(rng, c["seq"], c["sst"])]
     # outside the quantifier (correspondence of the model only): empty strands, ill-formed and misaligned input
     odd = []
